@@ -21,7 +21,11 @@ PINS = [('plasTeX/__init__.py', 'expandDef'), ('plasTeX/__init__.py', 'Definitio
         ('plasTeX/Base/TeX/Primitives.py', 'ifcase.invoke'), ('plasTeX/Base/TeX/Primitives.py', 'ifodd.invoke'), ('plasTeX/Base/TeX/Primitives.py', 'let.invoke'),
         ('plasTeX/Base/TeX/Registers.py', 'newif.invoke'), ('plasTeX/Context.py', 'Context.newif'), ('plasTeX/__init__.py', 'NewIf.invoke'),
         ('plasTeX/__init__.py', 'IfTrue.invoke'), ('plasTeX/__init__.py', 'IfFalse.invoke'), ('plasTeX/TeX.py', 'TeX.readInternalType'),
-        ('plasTeX/TeX.py', 'TeX.castControlSequence'), ('plasTeX/TeX.py', 'TeX.castNumber'), ('plasTeX/TeX.py', 'TeX.readCharacter')]
+        ('plasTeX/TeX.py', 'TeX.castControlSequence'), ('plasTeX/TeX.py', 'TeX.castNumber'), ('plasTeX/TeX.py', 'TeX.readCharacter'),
+        ('plasTeX/Base/LaTeX/Numbering.py', 'value.invoke'), ('plasTeX/Base/LaTeX/Numbering.py', 'stepcounter.invoke'),
+        ('plasTeX/Base/LaTeX/Numbering.py', 'setcounter.invoke'), ('plasTeX/Base/LaTeX/Numbering.py', 'addtocounter.invoke'),
+        ('plasTeX/__init__.py', 'Counter.stepcounter'), ('plasTeX/__init__.py', 'Counter.setcounter'), ('plasTeX/__init__.py', 'Counter.addtocounter'),
+        ('plasTeX/Context.py', 'Counters.__getitem__'), ('plasTeX/TeX.py', 'TeX.castString'), ('plasTeX/TeX.py', 'TeX.normalize')]
 RULE = ('(a) \\def parameter texts in normal form (literal prefix, 0-9 parameters, each undelimited or delimited by 1-2 tokens) with '
         'conforming calls (braced balanced undelimited arguments, delimited arguments free of the delimiter token) and bodies of literals, '
         '#k, ##; \\newcommand with 0-9 arguments, optional argument present/absent; plus a malformed soup of random parameter texts, bodies and '
@@ -485,7 +489,7 @@ def engine_streams(rng, tier, boost):
         out.append(('engine-soup', dict(kind='engine', toks=toks, names=[n for n in EL.names_in(toks) if n not in EL.PRIMS], cnames=['a', 'b', 'c', 'ab'])))
     for _ in range((300 if q else 3000) * boost):
         f1 = rng.random() < 0.5
-        out.append(('print', dict(kind='print', prog=EL.gen_prog(rng, f1_only=f1, max_params=rng.choice([3, 9]), delims=False, allow_nested=False, counters=False))))
+        out.append(('print', dict(kind='print', prog=EL.gen_prog(rng, f1_only=f1, max_params=rng.choice([3, 9]), delims=False, allow_nested=False))))
     for toks in EL.all_small(2 if q else 3):
         out.append(('engine-small', dict(kind='engine', toks=toks, names=[n for n in EL.names_in(toks) if n not in EL.PRIMS])))
     return out
